@@ -1042,13 +1042,19 @@ func runFormatKeyOrder(c *Ctx) {
 				}
 				bad := false
 				for _, l := range res.leaves {
-					if !fxIsIntConst(l.val, int64(rel.r)) {
+					isWant := fxIsIntConst(l.val, int64(rel.r))
+					got := ir.Sym(l.val)
+					if l.konst != nil {
+						isWant = *l.konst == int64(rel.r)
+						got = fmt.Sprint(*l.konst)
+					}
+					if !isWant {
 						bad = true
 						via := ""
-						if l.fn != fn {
+						if l.fn != fn || l.konst != nil {
 							via = " (through " + l.via + ")"
 						}
-						c.Violation(fn, c.P.InstrPos(l.at), sub, fmt.Sprintf("for v %s v2 the %s case returns %s%s; the published order returns %d (the default order of %s keys is inverted or collapsed)", rel.name, name, ir.Sym(l.val), via, rel.r, name))
+						c.Violation(fn, c.P.InstrPos(l.at), sub, fmt.Sprintf("for v %s v2 the %s case returns %s%s; the published order returns %d (the default order of %s keys is inverted or collapsed)", rel.name, name, got, via, rel.r, name))
 					}
 				}
 				if !bad {
@@ -1092,6 +1098,11 @@ func runFormatKeyOrder(c *Ctx) {
 	}
 }
 
+func isFloatType(t types.Type) bool {
+	b, ok := t.Underlying().(*types.Basic)
+	return ok && b.Info()&(types.IsFloat|types.IsComplex) != 0
+}
+
 // fxOwnFunc: f (or the generic function it instantiates) is a function of
 // package mast with a body.
 func fxOwnFunc(f *ssa.Function) bool {
@@ -1106,10 +1117,11 @@ func fxOwnFunc(f *ssa.Function) bool {
 }
 
 type orderedLeaf struct {
-	val ssa.Value
-	at  ssa.Instruction
-	fn  *ssa.Function
-	via string // helper chain, "" when the result is produced in the comparator itself
+	konst *int64 // the value, when it is known without being an SSA constant (cmp.Compare)
+	val   ssa.Value
+	at    ssa.Instruction
+	fn    *ssa.Function
+	via   string // helper chain, "" when the result is produced in the comparator itself
 }
 
 type orderedRes struct {
@@ -1170,6 +1182,20 @@ func orderedResults(c *Ctx, fn *ssa.Function, side func(ssa.Value) string, from 
 						sl.via = v
 						res.leaves = append(res.leaves, sl)
 					}
+					continue
+				}
+			}
+			// the standard three-way comparison: cmp.Compare(a, b) is -1/0/+1
+			// by </==/> for every ordered non-float type
+			if callee != nil && fxFullName(callee) == "cmp.Compare" && len(call.Call.Args) == 2 && !isFloatType(call.Call.Args[0].Type()) {
+				s0, s1 := side(call.Call.Args[0]), side(call.Call.Args[1])
+				if s0 != "" && s1 != "" && s0 != s1 {
+					k := int64(rel)
+					if s0 == "R" {
+						k = -k
+					}
+					via := "cmp.Compare(" + map[string]string{"L": "v", "R": "v2"}[s0] + ", " + map[string]string{"L": "v", "R": "v2"}[s1] + ")"
+					res.leaves = append(res.leaves, orderedLeaf{konst: &k, val: l, at: r, fn: fn, via: via})
 					continue
 				}
 			}
@@ -2362,5 +2388,25 @@ func runEmitGrammar(c *Ctx) {
 		mismatch = true
 		break
 	}
-	_ = mismatch
+	if mismatch {
+		return
+	}
+	// VARINTBUF: binary.PutUvarint panics when the scratch array is too small
+	// for the value. Lengths are non-negative ints of data held in memory
+	// (< 2^56), so the published 8-byte scratch suffices; anything smaller makes
+	// large nodes/values unencodable.
+	seen := map[ssa.Instruction]bool{}
+	for _, t := range at {
+		if (t.Kind != "U" && t.Kind != "V") || t.Pos == nil || seen[t.Pos] {
+			continue
+		}
+		seen[t.Pos] = true
+		if t.Scratch >= frozenVarintScratch {
+			c.OK(c.P.InstrPos(t.Pos), "varint scratch in "+t.Fn.Name(), fmt.Sprintf("%d bytes (≥ %d)", t.Scratch, frozenVarintScratch), false)
+		} else {
+			c.Violation(t.Fn, c.P.InstrPos(t.Pos), "varint scratch", fmt.Sprintf("binary.PutUvarint writes into a %d-byte array; the published encoder uses %d bytes (lengths < 2^56). A length ≥ 2^%d makes PutUvarint panic: such nodes can no longer be persisted", t.Scratch, frozenVarintScratch, 7*t.Scratch))
+		}
+	}
 }
+
+const frozenVarintScratch = 8
